@@ -10,12 +10,13 @@
 (*   RefInit: the state after NewReader is the abstraction's Init    (invariant)           *)
 (*   RefStep: every Read is a step of the abstraction or stutters    (action property)     *)
 (* Projection: spos <- stream bytes behind the header already delivered by the source,     *)
+(*   (stream length N + M*T, checked against Streaming's Canon in ParamsAgree),            *)
 (*   carry <- RLen(r.carry), cnt <- r.cnt, last <- r.last, alo..ahi <- the plaintext        *)
 (*   positions in r.avail, ret <- RLen(got), ok <- got is a prefix of the plaintext.       *)
 (* In the cfg  Nat <- MCNat  bounds the quantifier of the abstraction for TLC.             *)
 EXTENDS MC_Streaming
 
-MCNat == 0..(MaxN + MaxChunk + 2)
+MCNat == 0..((MaxN + (MaxN + 2) * T) + MaxChunk + P + 2)      \* covers the stream length N + M*T
 FF == P - Off
 
 \* the canonical (number of segments, plaintext bytes of the last one) of a plaintext of NN bytes
@@ -25,7 +26,8 @@ ROf(NN) == IF NN <= FF THEN NN ELSE (NN - FF) - (MOf(NN) - 2) * P
 AvailPlain == r.avail = <<>> \/ (Len(r.avail) = 1 /\ r.avail[1].src = PtSrc)
 RA(NN) == INSTANCE StreamReaderAbs WITH
             F <- FF, M <- MOf(NN), R <- ROf(NN),
-            spos    <- (RLen(Canon(PP, Session(PP, WAad), PlainText(NN))) - HLen(PP)) - RLen(src.rest),
+            spos    <- (NN + MOf(NN) * T) - RLen(src.rest),      \* = RA(NN)!L - rest (ParamsAgree); arithmetic: TLC is
+                                                                 \* pathologically slow on the PRIMED recursive Canon
             carry   <- RLen(r.carry),
             cnt     <- r.cnt,
             last    <- r.last,
@@ -44,7 +46,8 @@ RefNext == \/ NewWriter
 
 RefInit == \A NN \in 0..MaxN : (phase = "reading" /\ wpos = NN /\ res.op = "NewReader") => RA(NN)!Init
 RefInv  == \A NN \in 0..MaxN : (phase = "reading" /\ wpos = NN) => RA(NN)!Inv /\ RA(NN)!RoundTripAbs /\ AvailPlain
-RefStep == [][\A NN \in 0..MaxN : (phase = "reading" /\ phase' = "reading" /\ wpos = NN) => [RA(NN)!Next]_(RA(NN)!vars)]_vars
+StepOK  == \A NN \in 0..MaxN : (phase = "reading" /\ phase' = "reading" /\ wpos = NN) => (RA(NN)!Next \/ UNCHANGED RA(NN)!vars)
+RefStep == [][StepOK]_vars
 \* the constants of the abstraction are what Streaming's Canon (and StreamWriterAbs) produce for NN bytes
 CtRunsR(out) == SelectSeq(out, LAMBDA x : x.src.k = "ct")
 ParamsAgree == \A NN \in 0..MaxN :
